@@ -118,7 +118,7 @@ def check(tier, seed, replay=None):
     cls = {}
     cand = [c for c in mism if any(b >= 0xF0 for b in datas[c])]
     if cand:
-        var = ["".join(ch if ord(ch) < 0x10000 else "X" for ch in datas[c].decode("utf-8")).encode("utf-8") for c in cand]
+        var = ["".join(ch if ord(ch) < 0x10000 else chr(0x4E00 + ord(ch) % 0x5000) for ch in datas[c].decode("utf-8")).encode("utf-8") for c in cand]
         _, vrecs = observe(var, [None] * len(var))
         vflags, _ = run_trace_spec("Trace_C01", vrecs, "c01v", nproc=1)
         bad = {c for k, c, w in vflags if k != "DRIFT"}
